@@ -13,7 +13,7 @@ CONFIG = {
                    "starts at import exactly as in production; requests.get is a simulated server (immediate / delayed / "
                    "late / never answering; newer, equal, older, pre-release, dev, 'v'-prefixed, garbage, null or missing "
                    "tag; JSON list/string/number; non-JSON body; HTTP 403/404/500; connection, timeout and SSL errors; a "
-                   "non-requests exception). A seeded scheduler decides the interleaving at Thread.start, requests.get "
+                   "non-requests exception; optionally a different behaviour for every further request of the process). A seeded scheduler decides the interleaving at Thread.start, requests.get "
                    "entry/exit, join, thread exit, every file-system effect of the command and every source line of "
                    "ascmhl/cli/*.py; join(timeout) blocks in virtual time. A twin run of the same command without the "
                    "updater on an identical world gives the reference exit code, stdout and duration."),
@@ -40,6 +40,16 @@ LAT = [0, 1_000, 200_000, 990_000, 999_999, 1_000_001, 1_010_000, 5_000_000, Non
 
 
 def gen_net(rng):
+    net = gen_net1(rng)
+    if rng.random() < 0.3:
+        # a different behaviour for every further request of the same process (retries, redirects followed by hand ...)
+        net["then"] = [gen_net1(rng) for _ in range(rng.randint(1, 2))]
+        if rng.random() < 0.5:
+            net["latency_us"] = rng.choice([0, 1_000, 200_000])  # the first attempt fails / answers fast
+    return net
+
+
+def gen_net1(rng):
     k = rng.random()
     lat = rng.choice(LAT)
     if k < 0.4:
@@ -113,6 +123,10 @@ def norm(text, w):
 
 
 def notice_allowed(net):
+    return any(_notice_allowed1(n) for n in [net] + list(net.get("then") or []))
+
+
+def _notice_allowed1(net):
     if net["kind"] != "tag" or not isinstance(net.get("tag"), str):
         return False
     from packaging import version
@@ -219,6 +233,9 @@ def shrink_candidates(sc):
         yield dict(sc, ops=ops)
     if sc["preempt"]:
         yield dict(sc, preempt=0)
+    if sc["net"].get("then"):
+        yield dict(sc, net={k: v for k, v in sc["net"].items() if k != "then"})
+        yield dict(sc, net=dict(sc["net"], then=sc["net"]["then"][:1]))
     for tree in gen.shrink_tree_candidates(sc["world"]["tree"], {a[3:] for a in sc["argv"] if a.startswith("@R/")}):
         yield dict(sc, world=dict(sc["world"], tree=tree))
     for key, val in (("tz", "UTC0"), ("enum_profile", "sorted"), ("read_profile", "full")):
